@@ -971,7 +971,9 @@ private:
             }
 
             new_node->set_next(0, next);
+            __TBB_VERIF_POINT(vp_sl_level0_cas, this, 0);
             if (!prev->atomic_next(0).compare_exchange_strong(next, new_node)) {
+                __TBB_VERIF_POINT(vp_sl_cas_failed, this, 0);
                 continue;
             }
 
@@ -995,11 +997,13 @@ private:
                     next = static_cast<node_ptr>(curr_nodes[level]);
 
                     new_node->set_next(level, next);
+                    __TBB_VERIF_POINT(vp_sl_upper_link, this, level);
                     __TBB_ASSERT(new_node->height() > level, "Internal structure break");
                     if (prev->atomic_next(level).compare_exchange_strong(next, new_node)) {
                         break;
                     }
 
+                    __TBB_VERIF_POINT(vp_sl_cas_failed, this, level);
                     for (size_type lev = level; lev != new_height; ++lev ) {
                         curr_nodes[lev] = internal_find_position(lev, prev_nodes[lev], new_node, compare);
                     }
